@@ -46,7 +46,7 @@ fn mat_lit(kind: &str, r: usize, c: usize, s: &mut Src) -> String {
 }
 
 #[derive(Clone, Copy, Debug, PartialEq, Eq)]
-pub struct Opts { pub allow_mutation: bool, pub allow_noncore: bool, pub max_stmts: usize }
+pub struct Opts { pub allow_mutation: bool, pub allow_noncore: bool, pub max_stmts: usize, pub trailing_other: bool }
 
 pub fn build(choices: &[u32], o: Opts) -> Program {
   let mut s = Src { c: choices, i: 0 };
@@ -199,7 +199,11 @@ pub fn build(choices: &[u32], o: Opts) -> Program {
   }
   if p.lines.is_empty() { p.lines.push("v0 := 1.5".to_string()); }
   // final expression: a reference to the last defined variable (so the program's result is a value of interest)
-  if let Some(last) = env.last() { p.lines.push(last.name.clone()); }
+  // (after an assignment the assigned variable is the one touched last)
+  let last_assigned = p.lines.last().and_then(|l| if l.contains(":=") { None } else { l.split(|c: char| !c.is_alphanumeric()).next().map(|s| s.to_string()) }).filter(|n| env.iter().any(|v| &v.name == n));
+  if o.trailing_other && env.len() >= 2 { p.lines.push(env[0].name.clone()); p.features.push("trailing-reference-to-earlier-variable".into()); }
+  else if let Some(a) = last_assigned { p.lines.push(a); }
+  else if let Some(last) = env.last() { p.lines.push(last.name.clone()); }
   p
 }
 
